@@ -135,7 +135,7 @@ def register_structure(reg):
                          " for a in (False, True) for b in (False, True)])"],
                 properties=["C16", "C18"] if lang == "numba" else ["C16", "C19"], modular=False, name=f"{lang}.Formatter[{P.__name__}]",
                 max_paths=20000,
-                mutants=([("return f'{lhs} {oper.op} {rhs}'", "return f'{rhs} {oper.op} {lhs}'")] if (P is L.Sub and lang == "C") else [])))
+                mutants=([('return f"{lhs} {oper.op} {rhs}"', 'return f"{rhs} {oper.op} {lhs}"')] if (P is L.Sub and lang == "C") else [])))
         for P, n in ((L.Sum, 2), (L.Product, 3)):
             h = disp.dispatch(P)
             reg.add(Contract(
